@@ -28,6 +28,9 @@ CHECKS = {
  "C12": dict(technique="bounded-exhaustive enumeration of well-typed programs x layouts x identifier occurrences x cursor columns through the real goto handlers; expected targets from reference scoping rules on the generating tree",
    text="for every identifier occurrence and every column inside it, in every declaration order of the binding scenarios (shadowing, alias types, anonymous array types, builtins) and every error-free member of the expression/statement/type families: declaration/definition/implementation/typeDefinition return exactly the range of the bound declaring name or null; null on non-identifiers and white space",
    note="bindings from refsem.rs (independent scoping / name-equivalence implementation); in-process server loop", ref="4/C12"),
+ "C13": dict(technique="bounded-exhaustive enumeration of well-typed programs x layouts x identifier occurrences through the real references/rename/prepareRename handlers; expected occurrence sets from reference scoping rules; rename applied, re-opened, re-queried and reverted",
+   text="for every identifier occurrence: references = exactly the other occurrences of the binding, rename = exactly one edit per occurrence, prepareRename = the identifier's range iff rename is offered; for every declared binding the rename to a fresh name is applied with an independent edit model, the result re-opened (no diagnostics), the occurrence set re-queried, and renaming back restores the text",
+   note="bindings from refsem.rs; predefined entities and `main` are excluded from the apply/re-query phase (renaming them legitimately changes diagnostics)", ref="4/C13"),
  "C17": dict(technique="bounded-exhaustive enumeration of programs x layouts x comment placements through the real foldingRange handler; expected folds by construction",
    text="one fold per procedure, in source order, from the line of `proc` to the line of its last token for every generated program x layout x comment-gap variant; well-formedness (start<=end, inside document, non-overlapping) for every token soup up to 3/4 tokens",
    note="line numbers from the independent text model lsptext.rs", ref="4/C17"),
